@@ -414,9 +414,20 @@ pub fn name_alphabet() -> Vec<&'static str> {
         "*", "**", "?", "@", "#", "%", "+", "-", "_", "__proto__", "true", "false", "null", "0", "1", "[]", "{}", "all", "a ", " a", "a\u{a0}", "A",
         // names that begin with an always-visible claim's name, and names whose serialized form ends like a reserved key
         "issuer", "iat_", "expiry", "is", "x\"_sd", "x\"...", "\"_sd", "_sd\"", "_sd\":", "_sd_alg_", "cnf_",
+        // characters that pointer / path / URL syntaxes give a meaning
+        "a/b", "/", "a~1b", "~0", "%2E", "a#b", "a&b=c",
     ]
 }
-/// Member names usable under Custom (free of '.' and '[' and non-empty).
+/// Member names usable under Custom (free of '.' and '['): every other ASCII punctuation character alone and
+/// between letters is in the list, because path handling tends to give some of them a meaning ('/', '~', '*', ...).
 pub fn custom_name_alphabet() -> Vec<&'static str> {
+    let mut v = custom_name_alphabet_core();
+    v.extend([
+        "/", "a/b", "~", "a~b", "~0", "~1", "a~1b", "%", "%2E", "a%5Bb", "#", "a#b", "&", "=", "a=b", "\\", "a\\b", "'", "a'b", "`", "<", ">", "|", "^", "(", ")", "a(b)", "{", "}", "{a}", ";", "!", ",", "a,b", ":", "a:b", "+", "a+b",
+        "]", "a]", "a]b", "0]", "\"", "a\"b", "$", "$a", "a$", "@", "a@b", "?", "a?",
+    ]);
+    v
+}
+fn custom_name_alphabet_core() -> Vec<&'static str> {
     vec!["a", "ab", "\u{e9}", "x y", "\u{1F600}", "x\"y", "$", "0", "]", "*", "?", "@", "true", "null", "a ", " a", "a\u{a0}", "a\t", "A", "-", "_", "issuer", "iat_", "expiry", "x\"_sd", "_sd\":", ""]
 }
